@@ -103,8 +103,8 @@ func TestVerif_C03(t *testing.T) {
 	res := kit.NewResult("one case = one corruption (flip a byte / truncate / extend / delete) of one stored file of a generated repository, site classes {data-pack blob area, tree-pack blob area, pack header, pack length field, index, snapshot, key, config}, with and without an intact duplicate of the blobs; judged by the real check --read-data (must report an error) and by reading every snapshot through LoadBlob, plus sampled real restore and dump (fail or original bytes, never different bytes); distinct by (scenario, file class, kind, offset)")
 	recs := kit.NewNDJSON("recs.ndjson")
 	defer recs.Close()
-	ns := kit.Pick(2, 6)
-	perClass := kit.Pick(14, 400)
+	ns := kit.Pick(2, 4)
+	perClass := kit.Pick(14, 90)
 	for si := 0; si < ns; si++ {
 		seed := kit.Seed()*100000 + 300 + int64(si)
 		r := rand.New(rand.NewSource(seed))
